@@ -1,6 +1,6 @@
 (* C09 - property theorems only. *)
 From Coq Require Import QArith Qcanon Reals String Sorting.Sorted List.
-Require Import PV.Num PV.UpperLimit PV.gen.FactsC09.
+Require Import PV.Num PV.UpperLimit PV.gen.FactsC09 PV.gen.UpperLimitGen PV.TieUpperLimit.
 Import ListNotations.
 Local Open Scope string_scope.
 
@@ -98,6 +98,55 @@ Theorem C09_auto_scan_exact_hit_refuted :
     @toms748_scan QcNum H toms true 16 lo up level <> None.
 Proof. exact auto_scan_exact_hit_refuted. Qed.
 
+(* ---- tie to the source: the definitions of coq/gen/UpperLimitGen.v, translated on every run from pyhf/infer/intervals/upper_limits.py,
+   are the hand model of UpperLimit.v.  neqb_refl N: `==` of the number instance is reflexive (holds of the rationals and of the reals). ---- *)
+Theorem C09_source_is_model_interp : forall (N : Num) x xp fp, gen_interp N x xp fp = np_interp x xp fp.
+Proof. exact tie_interp. Qed.
+
+(* linear_grid_scan: which arrays are interpolated against which, in reversed order, observed first then the five expected curves *)
+Theorem C09_source_is_model_linear_grid_scan : forall (N : Num) (H : V N -> hres N) scan level,
+  gen_linear_grid_scan_results N H scan level = (let '(limits, sr) := linear_grid_scan H scan level in ((nth 0 limits None, tl limits), sr)) /\
+  gen_linear_grid_scan N H scan level = (let limits := fst (linear_grid_scan H scan level) in (nth 0 limits None, tl limits)).
+Proof. exact tie_linear_grid_scan_both. Qed.
+
+(* toms748_scan, its nested functions: the cache keyed by the tested value, the objective, the choice of the bracketing cache entries *)
+Theorem C09_source_is_model_f_cached : forall (N : Num) (H : V N -> hres N), neqb_refl N -> forall c p,
+  gen_f_cached N H c p = f_cached H c p.
+Proof. exact tie_f_cached. Qed.
+Theorem C09_source_is_model_f : forall (N : Num) (H : V N -> hres N), neqb_refl N -> forall c poi level k,
+  gen_f N H c poi level k = f_obj N H c poi level k.
+Proof. exact tie_f. Qed.
+Theorem C09_source_is_model_best_bracket : forall (N : Num) c level k, gen_best_bracket N c level k = best_bracket c level k.
+Proof. exact tie_best_bracket. Qed.
+
+(* ... its two extension loops: condition, /2 and *2, re-evaluation through the cache *)
+Theorem C09_source_is_model_extension_loops : forall (N : Num) (H : V N -> hres N), neqb_refl N -> forall fuel level c b r,
+  option_map (fun w : cache N * V N * hres N => (fst (fst w), snd (fst w))) (gen_while_1 N H fuel level c b r) = extend_low H fuel level c b r /\
+  option_map (fun w : cache N * V N * hres N => (fst (fst w), snd (fst w))) (gen_while_2 N H fuel level c b r) = extend_up H true fuel level c b r.
+Proof. exact tie_extension_loops. Qed.
+
+(* ... what is handed to toms748 and what comes back through the cache *)
+Theorem C09_source_is_model_run_toms : forall (N : Num) (H : V N -> hres N) toms, neqb_refl N -> forall c level k a b,
+  run_toms_with N (fun c poi => gen_f N H c poi level k) toms c k a b = run_toms H toms c level k a b.
+Proof. exact tie_run_toms. Qed.
+
+(* ... and the whole function, with and without the per-point results *)
+Theorem C09_source_is_model_toms748_scan : forall (N : Num) (H : V N -> hres N) toms, neqb_refl N -> forall fuel lo up level,
+  gen_toms748_scan_results N H toms fuel lo up level = option_map scan_view (toms748_scan H toms true fuel lo up level) /\
+  gen_toms748_scan N H toms fuel lo up level = option_map scan_limits (toms748_scan H toms true fuel lo up level).
+Proof. exact tie_toms748_scan_both. Qed.
+
+(* upper_limit: dispatch on `scan is None`, the caller's level and the POI bounds handed on, the returned tuple *)
+Theorem C09_source_is_model_upper_limit : forall (N : Num) (H : V N -> hres N) toms, neqb_refl N -> forall fuel bounds scan level,
+  match gen_upper_limit_results N H toms fuel bounds scan level with inl (o, e, pr) => grid_view N o e pr | inr r => r end
+    = option_map scan_view (upper_limit_spec N H toms true fuel bounds scan level) /\
+  match gen_upper_limit N H toms fuel bounds scan level with inl (o, e) => option_map fst (grid_view N o e ([], [])) | inr r => r end
+    = option_map scan_limits (upper_limit_spec N H toms true fuel bounds scan level).
+Proof. exact tie_upper_limit_both. Qed.
+Theorem C09_source_is_model_rationals_and_reals : neqb_refl QcNum /\ neqb_refl RNum.
+Proof. exact (conj neqb_refl_Qc neqb_refl_R). Qed.
+
+
 Print Assumptions C09_level_forwarded_both_modes.
 Print Assumptions C09_grid_limit_is_linear_interp.
 Print Assumptions C09_grid_limit_in_crossing_cell.
@@ -110,3 +159,13 @@ Print Assumptions C09_model_executed_is_real.
 Print Assumptions C09_grid_limit_same_cell_ordered.
 Print Assumptions C09_auto_scan_total.
 Print Assumptions C09_auto_scan_exact_hit_refuted.
+Print Assumptions C09_source_is_model_interp.
+Print Assumptions C09_source_is_model_linear_grid_scan.
+Print Assumptions C09_source_is_model_f_cached.
+Print Assumptions C09_source_is_model_f.
+Print Assumptions C09_source_is_model_best_bracket.
+Print Assumptions C09_source_is_model_extension_loops.
+Print Assumptions C09_source_is_model_run_toms.
+Print Assumptions C09_source_is_model_toms748_scan.
+Print Assumptions C09_source_is_model_upper_limit.
+Print Assumptions C09_source_is_model_rationals_and_reals.
